@@ -8,6 +8,12 @@
 //! corr   `(lowj CFG (body ...))`: the same for bodies with labels, `if|unless (c) goto L [@ t]`, `goto L [@ t]`,
 //!        counting jumps, ternaries and relative time labels (Lean `Lower.compileJ`); jump offsets are compared
 //!        as the position of the target instruction in the emitted stream.
+//! corr   `(srcvm CFG (body ...) VAL...)`: the real AstVm on the desugared flat SOURCE body (labels, jumps, counting
+//!        jumps, time labels) == Lean `Lower.runJS` (the source machine `lowerBody_sound` is stated in): time,
+//!        real_time, instr_log with the real_time of every call, all registers, per valuation; failures by class.
+//! corr   `(tgtvm CFG (body ...) (obs r...) VAL...)`: the real AstVm on raise(lower(source)) == Lean `Lower.execT` on
+//!        the model's `lowerBodyJ` (the target machine of `lowerBody_sound`): time, real_time, instr_log, every
+//!        register the source mentions or that is not available as scratch.
 
 use super::c05::{SIG_DIRECT, SIG_SWITCH};
 use super::lw::{self, BodyGen, Cfg, GenOpts, Lower};
@@ -162,9 +168,168 @@ fn nan_at_float_jump(l: &mut lw::Lowered, val: &Sexp) -> bool {
     vm.instr_log.iter().any(|c| c.opcode == probe && c.args.iter().any(|x| matches!(x, ScalarValue::Float(f) if f.is_nan())))
 }
 
+
+// ---------------------------------------------------------------------------------------------
+// the machines of Lean `Model/BodySem.lean` against the real VM
+
+const SRC_LIMIT: u32 = 300;
+const TGT_LIMIT: u32 = 100_000;
+
+fn expr_is_float(e: &Sexp, locals: &std::collections::BTreeMap<String, bool>) -> bool {
+    let a = e.args();
+    match e.head() {
+        Some("f") => true,
+        Some("reg") => match a[1].as_atom() { "i" => false, "f" => true, _ => lw::reg_is_float(a[0].as_i32()) },
+        Some("loc") => match a[1].as_atom() { "i" => false, "f" => true, _ => *locals.get(a[0].as_atom()).unwrap_or(&false) },
+        Some("un") => match a[0].as_atom() { "castF" | "sigF" | "sin" | "cos" | "sqrt" => true, "neg" => expr_is_float(&a[1], locals), _ => false },
+        Some("bin") => matches!(a[0].as_atom(), "add" | "sub" | "mul" | "div" | "rem") && expr_is_float(&a[1], locals),
+        Some("tern") => expr_is_float(&a[1], locals),
+        Some("sw") => a.iter().find(|c| !matches!(c, Sexp::Atom(_))).map_or(false, |c| expr_is_float(c, locals)),
+        _ => false,
+    }
+}
+
+/// float `%` has no native counterpart in the Lean driver: replaced by `*` in bodies compared with the model's machines
+fn no_float_rem(stmts: &[Sexp]) -> Vec<Sexp> {
+    let locals: std::collections::BTreeMap<String, bool> = lw::declared_locals(stmts).into_iter().collect();
+    fn walk(s: &Sexp, locals: &std::collections::BTreeMap<String, bool>) -> Sexp {
+        match s {
+            Sexp::List(v) => {
+                let mut out: Vec<Sexp> = v.iter().map(|x| walk(x, locals)).collect();
+                if s.head() == Some("bin") && out.len() == 4 && out[1].as_atom() == "rem" && expr_is_float(&out[2], locals) { out[1] = Sexp::atom("mul"); }
+                Sexp::List(out)
+            },
+            x => x.clone(),
+        }
+    }
+    stmts.iter().map(|s| walk(s, &locals)).collect()
+}
+
+fn fail_class(msg: &str) -> &'static str {
+    if msg.starts_with("iteration limit exceeded") { "limit" } else if msg.contains("tried to jump to") { "nolabel" } else { "fail" }
+}
+
+fn vm_result(r: &Result<VmOut, String>, regs: &[i32]) -> Sexp {
+    match r {
+        Ok(o) => Sexp::app("run", vec![Sexp::int(o.time), Sexp::int(o.real_time), Sexp::app("log", o.log.clone()),
+            Sexp::app("regs", regs.iter().map(|r| Sexp::list(vec![Sexp::int(*r), o.regs.iter().find(|x| x.0 == *r).and_then(|x| x.1.clone()).unwrap_or(Sexp::atom("unset"))])).collect())]),
+        Err(msg) => Sexp::app("fail", vec![Sexp::atom(fail_class(msg))]),
+    }
+}
+
+/// parse .. desugar_blocks of `stmts` (the pipeline of `lw::with_lowered` without the Lowerer)
+fn with_source<T>(cfg: &Cfg, stmts: &[Sexp], f: impl FnOnce(&[truth::Sp<ast::Stmt>], &truth::CompilerContext<'_>) -> T) -> Result<T, String> {
+    let text = lw::body_text(&lw::TestNames, stmts);
+    let mut scope = truth::Builder::new().capture_diagnostics(true).build();
+    let mut truth = scope.truth();
+    truth.apply_mapfile_str(&lw::mapfile(cfg.table), truth::Game::Th10).unwrap_or_else(|_| panic!("mapfile rejected"));
+    let mut stage = "parse";
+    let r: Result<Vec<truth::Sp<ast::Stmt>>, truth::ErrorReported> = (|| {
+        let mut block = truth.parse::<ast::Block>("<input>", text.as_bytes())?.value;
+        let ctx = truth.ctx();
+        stage = "resolve";
+        truth::passes::resolution::assign_languages(&mut block, truth::LanguageKey::Anm, ctx)?;
+        truth::passes::resolution::resolve_names(&block, ctx)?;
+        stage = "type_check";
+        truth::passes::type_check::run(&block, ctx)?;
+        stage = "prepare";
+        truth::passes::resolution::aliases_to_raw(&mut block, ctx)?;
+        truth::passes::resolution::compute_diff_label_masks(&mut block, ctx)?;
+        stage = "desugar";
+        truth::passes::desugar_blocks::run(&mut block, ctx, truth::LanguageKey::Anm)?;
+        Ok(block.0)
+    })();
+    match r {
+        Ok(old) => Ok(f(&old, truth.ctx())),
+        Err(e) => { e.ignore(); Err(format!("{stage}: {}", crate::util::diag_class(&truth.get_captured_diagnostics().unwrap_or_default()))) },
+    }
+}
+
+fn eval_srcvm(case: &Sexp) -> Sexp {
+    let a = case.args();
+    let cfg = Cfg::from_sexp(&a[0]);
+    let stmts: Vec<Sexp> = a[1].args().to_vec();
+    let vals: Vec<Sexp> = a[2..].to_vec();
+    let regs = lw::all_regs();
+    match with_source(&cfg, &stmts, |old, ctx| Sexp::app("ok", vals.iter().map(|v| vm_result(&run_vm(old, ctx, v, SRC_LIMIT), &regs)).collect())) {
+        Ok(s) => s,
+        Err(d) => Sexp::app("rejected-source", vec![Sexp::str(d)]),
+    }
+}
+
+fn eval_tgtvm(case: &Sexp) -> Sexp {
+    let a = case.args();
+    let cfg = Cfg::from_sexp(&a[0]);
+    let stmts: Vec<Sexp> = a[1].args().to_vec();
+    let obs: Vec<i32> = a[2].args().iter().map(|x| x.as_i32()).collect();
+    let vals: Vec<Sexp> = a[3..].to_vec();
+    let r = lw::with_lowered(&cfg, &stmts, |l| {
+        let new_stmts = match raise(l, false) { Ok(s) => s, Err(d) => return Sexp::app("raise-failed", vec![Sexp::str(crate::util::diag_class(&d))]) };
+        let old_stmts = l.old_stmts.clone();
+        let ctx = l.truth.ctx();
+        Sexp::app("ok", vals.iter().map(|v| {
+            if run_vm(&old_stmts, ctx, v, SRC_LIMIT).is_err() { return Sexp::app("skip", vec![]); }
+            vm_result(&run_vm(&new_stmts, ctx, v, TGT_LIMIT), &obs)
+        }).collect())
+    });
+    match r { Ok(s) => s, Err(_) => Sexp::app("rejected", vec![]) }
+}
+
+/// registers `tgtvm` compares: those the source names and those that are not available as scratch
+fn observed_regs(cfg: &Cfg, stmts: &[Sexp]) -> Vec<i32> {
+    let mentioned = lw::mentioned_regs(stmts);
+    let pool: Vec<i32> = cfg.pool_ints().into_iter().chain(cfg.pool_floats()).collect();
+    lw::all_regs().into_iter().filter(|r| mentioned.contains_key(r) || !pool.contains(r)).collect()
+}
+
 pub const SIG_NESTED: &str = "nested-diff-switch-loses-inner-cases";
 pub const SIG_NAN: &str = "float-comparison-negated-by-compiler-sees-nan";
 pub const SIG_LOC: &str = "explicit-jump-time-dropped-when-jump-has-no-time-argument";
+pub const SIG_AHEAD: &str = "script-time-ahead-of-time-labels-reset-by-compiler-label";
+
+/// Times of the top-level labels of a body (relative time labels add up), for `jump_time_ahead` / `clamp_jump_times`.
+fn top_level_label_times(stmts: &[Sexp]) -> std::collections::BTreeMap<String, i64> {
+    let mut t = 0i64;
+    let mut out = std::collections::BTreeMap::new();
+    for s in stmts {
+        match s.head() {
+            Some("wait") => t += s.args()[0].as_i64(),
+            Some("label") => { out.entry(s.args()[0].as_atom().to_string()).or_insert(t); },
+            _ => {},
+        }
+    }
+    out
+}
+
+/// explicit time of a top-level jump, with its target
+fn top_level_jump_time(s: &Sexp) -> Option<(String, i64)> {
+    match s.head() {
+        Some("goto") if s.args().len() > 1 => Some((s.args()[0].as_atom().to_string(), s.args()[1].as_i64())),
+        Some("ifgoto") if s.args().len() > 3 => Some((s.args()[2].as_atom().to_string(), s.args()[3].as_i64())),
+        _ => None,
+    }
+}
+
+/// some top-level `goto L @ t` / `if (c) goto L @ t` has `t` later than the time label in front of `L`: after it the
+/// script time is ahead of the time labels of the text
+fn jump_time_ahead(stmts: &[Sexp]) -> bool {
+    let times = top_level_label_times(stmts);
+    stmts.iter().any(|s| top_level_jump_time(s).map_or(false, |(l, t)| times.get(&l).map_or(false, |tl| t > *tl)))
+}
+
+/// the same body with those jump times lowered to the time of the label
+fn clamp_jump_times(stmts: &[Sexp]) -> Vec<Sexp> {
+    let times = top_level_label_times(stmts);
+    stmts.iter().map(|s| match top_level_jump_time(s) {
+        Some((l, t)) if times.get(&l).map_or(false, |tl| t > *tl) => {
+            let mut v: Vec<Sexp> = match s { Sexp::List(v) => v.clone(), x => vec![x.clone()] };
+            let k = v.len() - 1;
+            v[k] = Sexp::int(times[&l]);
+            Sexp::List(v)
+        },
+        _ => s.clone(),
+    }).collect()
+}
 
 /// `goto L @ t` / `if (c) goto L @ t` somewhere in the body
 fn has_explicit_jump_time(stmts: &[Sexp]) -> bool {
@@ -228,6 +393,13 @@ fn eval_vm(case: &Sexp) -> Sexp {
         with_time.table &= !lw::T_LOC_ONLY;
         let r2 = run_vm_case(&with_time, full_raise, &stmts, &vals);
         if r2.head() == Some("pass") { return fail(SIG_LOC, r.args()[1].as_atom().to_string()); }
+    }
+    // a mismatch that disappears when no jump sets the script time ahead of the time label of its target: the labels the
+    // compiler adds itself (`&&` / `||` skip labels, ternary labels, `unless (--x)`) carry the time of their statement, and
+    // jumping to them sets the script time back to it
+    if r.head() == Some("fail") && r.args()[0].as_atom().starts_with("vm-mismatch") && jump_time_ahead(&stmts) {
+        let r2 = run_vm_case(&cfg, full_raise, &clamp_jump_times(&stmts), &vals);
+        if r2.head() == Some("pass") { return fail(SIG_AHEAD, r.args()[1].as_atom().to_string()); }
     }
     r
 }
@@ -358,13 +530,14 @@ pub const TABLES: &[u32] = &[
 impl Prop for C02 {
     fn id(&self) -> &'static str { "C02" }
     fn relation(&self) -> &'static str {
-        "low: instruction stream (time, opcode, difficulty mask, argument kinds and values) emitted by Lowerer::lower_sub under TestLanguage for straight-line assignment/call bodies == Lean `Lower.compile` under the same intrinsic table and scratch pool; lowj: the same for bodies with labels, `if|unless (c) goto L [@ t]`, `goto L [@ t]`, counting jumps, ternaries and relative time labels == Lean `Lower.compileJ`, every jump offset compared as the position of its target instruction in the emitted stream, jump times as values; error class on rejection"
+        "low: instruction stream (time, opcode, difficulty mask, argument kinds and values) emitted by Lowerer::lower_sub under TestLanguage for straight-line assignment/call bodies == Lean `Lower.compile` under the same intrinsic table and scratch pool; lowj: the same for bodies with labels, `if|unless (c) goto L [@ t]`, `goto L [@ t]`, counting jumps, ternaries and relative time labels == Lean `Lower.compileJ`, every jump offset compared as the position of its target instruction in the emitted stream, jump times as values; error class on rejection; srcvm: AstVm (iteration limit 300) on the desugared flat source body from every valuation == Lean `Lower.runJS` (time, real_time, instr_log with the real_time of every call, all 16 registers; failures by class: iteration limit / undefined label / other); tgtvm: AstVm on raise(lower(source)) == Lean `Lower.execT` on the model's `lowerBodyJ` (time, real_time, instr_log with stamps, every register the source mentions or that is not available as scratch; rejected compiles and source runs that do not finish are skipped on both sides)"
     }
     fn rule(&self) -> &'static str {
-        "generated bodies over 8 int / 6 float registers + 2 non-scratch registers, locals in nested blocks, arithmetic/bitwise/logic/comparison/cast/sigil/ternary/difficulty-switch expressions, 12 assignment operators, if/unless/while/do-while/times/loop+break/goto/counting jumps, calls with 0-4 complex arguments, time labels, difficulty labels; jump bodies for the model: 1-3 labels placed anywhere, conditions of every shape (comparisons of complex int/float operands, nested && || !, non-comparison expressions, constants, leaves, ternaries and switches inside), counting conditions in all three spellings, explicit jump times, jumps inside nested blocks, rare undefined/duplicate labels, under 11 jump tables (conditional jump per comparison / for == < >= only / cmp+jmp pair / both / none; CountJmp() / CountJmp(>) / both / none; with and without Jmp; `ot` and `to`); x 7 intrinsic tables x pools of 0..8/0..6 scratch registers x 3 (quick) or 8 valuations (boundary + small) x difficulties 0-3; non-trivial = at least one statement needs more than one instruction"
+        "generated bodies over 8 int / 6 float registers + 2 non-scratch registers, locals in nested blocks, arithmetic/bitwise/logic/comparison/cast/sigil/ternary/difficulty-switch expressions, 12 assignment operators, if/unless/while/do-while/times/loop+break/goto/counting jumps, calls with 0-4 complex arguments, time labels, difficulty labels; jump bodies for the model: 1-3 labels placed anywhere, conditions of every shape (comparisons of complex int/float operands, nested && || !, non-comparison expressions, constants, leaves, ternaries and switches inside), counting conditions in all three spellings, explicit jump times, jumps inside nested blocks, rare undefined/duplicate labels, under 11 jump tables (conditional jump per comparison / for == < >= only / cmp+jmp pair / both / none; CountJmp() / CountJmp(>) / both / none; with and without Jmp; `ot` and `to`); x 7 intrinsic tables x pools of 0..8/0..6 scratch registers x 3 (quick) or 8 valuations (boundary + small) x difficulties 0-3; machine cases (srcvm / tgtvm): flat bodies of 2-7 statements + 1-3 labels: up to 2 locals declared with initialiser at the top, `if|unless (c) goto L [@ t]` with conditions of every shape, counting jumps in all spellings incl. backward counting loops, `goto L [@ t]` (forward, backward, explicit times 0-40 on both sides of the label's time), assignments / assign-ops / calls over int and float expressions with ternaries, switches and casts, relative time labels, rare undefined labels; non-trivial = at least one statement needs more than one instruction"
     }
     fn theorems(&self) -> &'static [&'static str] { &["TruthModel.C02.lowerSet_sound", "TruthModel.C02.lowerAssign_sound_partial", "TruthModel.C02.lowerCall_sound_partial", "TruthModel.C02.alternatives_sound",
-          "TruthModel.C02.lowerSetJ_eq", "TruthModel.C02.lowerCondJump_sound", "TruthModel.C02.lowerCondJump_reach", "TruthModel.C02.lowerTernary_sound", "TruthModel.C02.nan_negation_witness"] }
+          "TruthModel.C02.lowerSetJ_eq", "TruthModel.C02.lowerCondJump_sound", "TruthModel.C02.lowerCondJump_reach", "TruthModel.C02.lowerTernary_sound", "TruthModel.C02.nan_negation_witness",
+          "TruthModel.C02.lowerBody_sound", "TruthModel.C02.lowerBody_diverges", "TruthModel.C02.lowerSetT_sound", "TruthModel.C02.lowerCondT_sound", "TruthModel.C02.lowerBodyT_sound", "TruthModel.C02.lowerBodyT_diverges", "TruthModel.C02.assign_preserves_exec", "TruthModel.C02.assign_preserves_exec_straight", "TruthModel.C02.lowerBody_assigned_sound"] }
     fn timeout_secs(&self) -> u64 { 60 }
 
     fn gen(&self, tier: Tier, rng: &mut Rng) -> Vec<Case> {
@@ -412,6 +585,27 @@ impl Prop for C02 {
             for i in 0..nvals { v.push(lw::valuation(rng, i % 2 == 0)); }
             out.push(Case::search(Sexp::app("vm", v)).tag(if cfg.table & lw::T_LOC_ONLY != 0 { "vm-jump-without-time-argument" } else { "vm-explicit-jump-time" }));
         }
+        // directed: a jump whose explicit time is later than the time label of its target, followed by a statement the
+        // compiler gives a label of its own (skip label of `&&` / `||`, ternary labels, `unless (--x)`)
+        for _ in 0..40 * scale {
+            let cfg = Cfg { ints: 8, floats: 6, table: *rng.pick(&[0, lw::T_TWO_PART, lw::T_BOTH_COUNT | lw::T_TIME_FIRST]), simplify: false };
+            let call = |k: i64| Sexp::app("call", vec![Sexp::int(lw::plain_opcode("S") as i64), Sexp::app("i", vec![Sexp::int(k)])]);
+            let reg = |k: usize| Sexp::app("reg", vec![Sexp::int(lw::INT_REGS[k] as i64), Sexp::atom("n"), Sexp::atom("raw")]);
+            let t = rng.range(0, 40);
+            let jump = if rng.chance(1, 2) { Sexp::app("goto", vec![Sexp::atom("lab1"), Sexp::int(t)]) }
+                       else { Sexp::app("ifgoto", vec![Sexp::atom("if"), Sexp::app("bin", vec![Sexp::atom("ge"), reg(0), Sexp::app("i", vec![Sexp::int(rng.range(-3, 3))])]), Sexp::atom("lab1"), Sexp::int(t)]) };
+            let own_label = match rng.below(4) {
+                0 => Sexp::app("ifgoto", vec![Sexp::atom("if"), Sexp::app("bin", vec![Sexp::atom("land"), reg(1), reg(2)]), Sexp::atom("lab2")]),
+                1 => Sexp::app("ifgoto", vec![Sexp::atom("unless"), Sexp::app("bin", vec![Sexp::atom("lor"), reg(1), reg(2)]), Sexp::atom("lab2")]),
+                2 => Sexp::app("asg", vec![Sexp::atom("set"), reg(3), Sexp::app("tern", vec![reg(1), reg(2), Sexp::app("i", vec![Sexp::int(7)])])]),
+                _ => Sexp::app("ifgoto", vec![Sexp::atom("unless"), Sexp::app("predec", vec![reg(1)]), Sexp::atom("lab2")]),
+            };
+            let body = vec![call(1), jump, Sexp::app("wait", vec![Sexp::int(rng.range(1, 12))]), call(2), Sexp::app("label", vec![Sexp::atom("lab1")]), own_label,
+                            Sexp::app("wait", vec![Sexp::int(rng.range(1, 30))]), call(3), Sexp::app("label", vec![Sexp::atom("lab2")]), call(4)];
+            let mut v = vec![cfg.to_sexp(), Sexp::atom("min"), Sexp::app("body", body)];
+            for i in 0..nvals { v.push(lw::valuation(rng, i % 2 == 0)); }
+            out.push(Case::search(Sexp::app("vm", v)).tag("vm-jump-time-ahead-of-label"));
+        }
         for _ in 0..4000 * scale {
             let cfg = Cfg { ints: rng.below(9), floats: rng.below(7), table: *rng.pick(&[0, 0, TABLES[1], TABLES[2], TABLES[6]]), simplify: false };
             let mut g = BodyGen::new(rng, opts(cfg.table, false, true));
@@ -438,6 +632,34 @@ impl Prop for C02 {
             if body.iter().any(|s| matches!(s.head(), Some("ifgoto") | Some("goto")) && s.args().len() > if s.head() == Some("goto") { 1 } else { 3 }) { c = c.tag("lowj-explicit-time"); }
             out.push(c);
         }
+        // correspondence of the two machines `lowerBody_sound` relates with the real VM: the source machine on flat bodies
+        // with jumps (`srcvm`), the target machine on the model's lowering against the real compiled code (`tgtvm`)
+        for k in 0..2400 * scale {
+            let target = k % 3 == 2;
+            let table = if target { *rng.pick(JUMP_TABLES) } else { *rng.pick(&[0, lw::T_COUNT_GT, lw::T_BOTH_COUNT]) };
+            let cfg = Cfg { ints: if target { 6 + rng.below(3) } else { 8 }, floats: if target { 4 + rng.below(3) } else { 6 }, table, simplify: false };
+            let mut o = opts(cfg.table, false, true);
+            o.ternary = true;
+            o.time_labels = true;
+            // (a cmp + jmp pair replicated by a difficulty switch cannot be fused back by the raiser: the VM cannot run it)
+            if target && table & lw::T_TWO_PART != 0 { o.switches = false; }
+            let mut g = BodyGen::new(rng, o);
+            g.jump_model = true;
+            let n = 2 + g.rng.below(6);
+            let mut body = no_float_rem(&g.flat_jump_body(n));
+            // a trailing time label is only observable through a following instruction; the compiled script always ends in
+            // one: how long the VM waits at a label that ENDS the raised script depends on where the raiser puts that label
+            // relative to a trailing time label (an artefact of observing the compiled code through raise + AstVm)
+            if target || rng.chance(3, 4) { body.push(Sexp::app("call", vec![Sexp::int(lw::OP_PLAIN as i64)])); }
+            let mut v = vec![cfg.to_sexp(), Sexp::app("body", body.clone())];
+            if target { v.push(Sexp::app("obs", observed_regs(&cfg, &body).into_iter().map(|r| Sexp::int(r)).collect())); }
+            for i in 0..nvals { v.push(lw::valuation(rng, i % 3 == 0)); }
+            let head = if target { "tgtvm" } else { "srcvm" };
+            let mut c = Case::corr(Sexp::app(head, v)).tag(format!("{head}-table-{}", cfg.table));
+            for (h, tag) in [("ifgoto", "cond-jump"), ("predec", "count-jump"), ("goto", "goto"), ("wait", "time-label"), ("tern", "ternary"), ("sw", "switch"), ("decl", "local")] { if lw::contains_head(&body, h) { c = c.tag(format!("{head}-{tag}")); } }
+            if body.iter().any(|s| matches!(s.head(), Some("ifgoto") | Some("goto")) && s.args().len() > if s.head() == Some("goto") { 1 } else { 3 }) { c = c.tag(format!("{head}-explicit-time")); }
+            out.push(c);
+        }
         // development aid: `VERIF_ONLY=<head>` keeps only the cases of one kind
         if let Ok(h) = std::env::var("VERIF_ONLY") { out.retain(|c| c.sexp.head() == Some(h.as_str())); }
         lw::dump_cases(&out);
@@ -449,6 +671,8 @@ impl Prop for C02 {
             Some("vm") => eval_vm(case),
             Some("low") => super::c05::eval_assign(case, false),
             Some("lowj") => eval_lowj(case),
+            Some("srcvm") => eval_srcvm(case),
+            Some("tgtvm") => eval_tgtvm(case),
             _ => Sexp::atom("bad-case"),
         }
     }
